@@ -116,6 +116,19 @@ def factor_audit(x, U, s, VH, what, out):
     for nm, f in (("U", U), ("VH", VH), ("s", s)):
         if f is not None and not all(np.all(np.isfinite(np.asarray(b))) for b in f.blocks.values()):
             out.append(("non-finite-factor", f"{what}: {nm} holds NaN / inf"))
+    # a valid array can be used: densified, synchronised, multiplied through every entry point
+    if U.indices[1].chargemap:  # (nothing kept: the bond is empty, there is no dense form to ask for)
+        for nm, f in (("U", U), ("VH", VH)):
+            try:
+                f.to_dense()
+                if f.fermionic:
+                    f.phase_sync()
+            except Exception as ex:
+                out.append((f"factor-unusable-{type(ex).__name__}", f"{what}: {nm}.to_dense() / phase_sync(): {ex}"))
+        try:
+            U @ VH
+        except Exception as ex:
+            out.append((f"factor-unusable-{type(ex).__name__}", f"{what}: U @ VH: {ex}"))
     bl, br = U.indices[1], VH.indices[0]
     if dict(bl.chargemap) != dict(br.chargemap):
         out.append(("bond-tables-differ", f"{what}: {dict(bl.chargemap)} vs {dict(br.chargemap)}"))
